@@ -1,222 +1,510 @@
 """C07 - every peak is assigned to its best-fitting grain, whatever the order or threads.
 
-specs: ScoreAssign.tla (all error tables 3 grains x 2 peaks x 4 levels, all orders, all chunk schedules),
-       TraceScoreAssign.tla (trace validation of recorded real runs).
-Mode A: every TLC table is realised with exactly representable UBIs / g-vectors, tiled across the 4096 OpenMP
-        chunk size, and run through raw score_and_assign calls and indexer.fight_over_peaks at several thread
-        counts: labels, stored errors, returned counts and histogram must equal the model's final state.
-Mode C: seeded realistic runs (random / twinned / duplicated UBIs, noisy peaks, strays) are recorded call by call
-        (ranks of the reference errors, labels and rank of stored error after every real call) and validated by TLC;
-        large runs are split into blocks of 64 peaks (peaks are independent) and the model's per-block counts summed.
+specs: ScoreAssign.tla (the kernel's loop body as three named branches TakeP / ReleaseP / LeaveP, any peak schedule;
+       configurations q = all fresh passes 3 grains x 2 peaks over -1 filled buffers, hist = every history of 1..3 calls
+       (thorough: 1..4) over 2 labels x 3 UBI versions - fresh passes, a label presented again after its UBI changed,
+       partial passes - from every initial label content (-1, a foreign value, either label) and stale stored errors,
+       thorough also dirty_t = fresh passes of 3 grains x 2 peaks over buffers holding -1 / a foreign value / a grain's
+       label), TraceScoreAssign.tla (trace validation of recorded real runs).
+Mode A: EVERY behaviour TLC emits is realised with exactly representable UBIs / g-vectors; behaviours sharing a
+        presentation sequence are packed as the peaks of one array, tiled to 5*4096+7 peaks (6 OpenMP chunks), and run
+        through raw score_and_assign calls at 1/2/3/5/8/16/32 threads, two label numberings, two initial error values:
+        labels, stored errors and returned count after every call must equal the model's snapshot.  The callers are
+        driven with the same arrays: indexer.fight_over_peaks (.ga .gas .drlv2), nb_utils.assign_peaks_to_grains (zero
+        filled labels), indexer.getind (dirty and default work buffers), GrainSinogram.prepare_peaks_from_2d (label 0 / 5).
+Mode C: seeded realistic runs (random / twinned / duplicated UBIs, noisy peaks, strays) through every route: raw calls
+        (fresh buffers; zero filled buffers with zero based labels; a second pass after the grains moved, over stale
+        labels with reset or stale stored errors, other tolerance), fight_over_peaks, assign_peaks_to_grains, getind,
+        prepare_peaks_from_2d, and refinegrains.assignlabels on forward simulated detector peaks of sub-grain families
+        whose positions are distinct / all equal / shared with another position in between, in several grain orders,
+        in memory and through files.  Reference errors are the harness's own numpy (c07_lib.hkl_err, c09_sim.forward for
+        per-grain g-vectors); runs are recorded (ranks of reference errors, labels and rank of stored error after every
+        observable call) and validated by TLC in blocks of 256 peaks; the model's per-block counts are summed.
 """
-import os, sys, json, io, contextlib, time, itertools
+import os, sys, json, time, threading, contextlib
 import numpy as np
 import common
+import c07_lib as L
 
 PROP = "C07"
-TOL = 8.0 / 64.0
-LEVEL = {0: 1.0 / 64, 1: 2.0 / 64, 2: 3.0 / 64, 3: 20.0 / 64}      # level 3 = E : outside tolerance
-BLOCK = 64
+TOTAL = 5 * L.CHUNK + 7                     # 6 chunks: with 2, 3, 5 threads the chunks wrap around the threads
+CONFIGS = {"q": ("ScoreAssign_q.cfg", 3, 24576), "hist": ("ScoreAssign_hist.cfg", 2, 29952),
+           "dirty_t": ("ScoreAssign_dirty_t.cfg", 3, 221184), "hist_t": ("ScoreAssign_hist_t.cfg", 2, 122880)}
+ACTIONS = ("Call", "TakeP", "ReleaseP", "LeaveP", "Return")
 
 
-def table_ubis(G):
-    """UBI_g = 64 I except 1 at (g,g): err_g(gv) = frac(gv[g])^2 when the other components are multiples of 1/64"""
-    out = []
-    for g in range(G):
-        u = np.eye(3) * 64.0
-        u[g, g] = 1.0
-        out.append(u)
-    return out
+def load_mods():
+    from ImageD11 import cImageD11 as c, indexing, transform, unitcell, columnfile, grain, parameters, refinegrains
+    with L.quiet():
+        import ImageD11.nbGui.nb_utils as nb_utils
+        import ImageD11.sinograms.sinogram as sinogram
+        import ImageD11.sinograms.dataset as dataset
+    return {"c": c, "indexing": indexing, "transform": transform, "unitcell": unitcell, "columnfile": columnfile, "grain": grain,
+            "parameters": parameters, "refinegrains": refinegrains, "nb_utils": nb_utils, "sinogram": sinogram, "dataset": dataset}
 
 
-def realise(err, reps):
-    """g-vectors for an error table err[g][k] (levels 0..3), each peak tiled reps times, interleaved"""
-    G = len(err)
-    K = len(err[0])
-    gv1 = np.zeros((K, 3))
-    for k in range(K):
-        for g in range(3):
-            lev = err[g][k] if g < G else 3
-            gv1[k, g] = (3 + k + g) + LEVEL[lev]
-    return np.ascontiguousarray(np.tile(gv1, (reps, 1)))
+# ---------------------------------------------------------------------------------------------
+# mode A
 
-
-def run_table(case, c, indexing, reps, threads, perturb=False):
-    err = [case["err"][g] for g in range(len(case["err"]))]
-    G, K = len(err), len(err[0])
-    order = case["order"]
-    ubis = table_ubis(3)
-    gv = realise(err, reps)
-    ng = len(gv)
-    probs = []
-    exp_lab = np.tile(np.array(case["labels"], np.int32), reps)
-    exp_dr = np.tile(np.array([LEVEL[d] ** 2 if d < 3 else -1.0 for d in case["drlv2"]]), reps)
-    if perturb:
-        exp_lab = exp_lab.copy()
-        exp_lab[0] = 2 if exp_lab[0] != 2 else 1
-    old = c.cimaged11_omp_get_max_threads()
+def tlc_tables(name, tier, out):
+    cfg, G, nexp = CONFIGS[name]
     try:
-        for nt in threads:
-            c.cimaged11_omp_set_num_threads(nt)
-            for init in (1.0, 2.0):
-                labels = np.full(ng, -1, np.int32)
-                drlv2 = np.full(ng, init)
-                rets = []
-                for g in order:
-                    rets.append(c.score_and_assign(ubis[g - 1], gv, TOL, drlv2, labels, g))
-                if rets != [r * reps for r in case["rets"]]:
-                    probs.append("score_and_assign (threads=%d): returned counts %s, specification %s" % (nt, rets, [r * reps for r in case["rets"]]))
-                if not np.array_equal(labels, exp_lab):
-                    bad = np.nonzero(labels != exp_lab)[0][:5]
-                    probs.append("score_and_assign (threads=%d): labels differ from specification at peaks %s: %s vs %s" % (
-                        nt, bad.tolist(), labels[bad].tolist(), exp_lab[bad].tolist()))
-                want = np.where(exp_dr < 0, init, exp_dr)
-                if not np.array_equal(drlv2, want):
-                    probs.append("score_and_assign (threads=%d): stored errors differ from specification" % nt)
-            # indexer.fight_over_peaks: ubis in presentation order, labels are positions 0..G-1
-            with contextlib.redirect_stdout(io.StringIO()):
-                ind = indexing.indexer(gv=gv, hkl_tol=TOL)
-            ind.ubis = [ubis[g - 1] for g in order]
-            ind.fight_over_peaks()
-            pos = {g: i for i, g in enumerate(order)}
-            want_ga = np.array([pos[l] if l > 0 else -1 for l in exp_lab], np.int32)
-            if not np.array_equal(ind.ga, want_ga):
-                probs.append("indexer.fight_over_peaks (threads=%d): ga differs from specification" % nt)
-            hist = [int((want_ga == i).sum()) for i in range(G)]
-            if list(ind.gas) != hist:
-                probs.append("indexer.fight_over_peaks (threads=%d): gas %s is not the histogram of the labels %s" % (nt, list(ind.gas), hist))
-    finally:
-        c.cimaged11_omp_set_num_threads(old)
+        res = common.run_tlc("ScoreAssign", os.path.join(common.SPECS, cfg), workers=6, timeout=2400,
+                             coverage=(tier == "thorough"))
+        out[name] = res
+    except Exception as e:                                      # re-raised by the main thread
+        out[name] = e
+
+
+def mode_a(chk, mods, name, res, tier):
+    cfg, G, nexp = CONFIGS[name]
+    c = mods["c"]
+    need = ACTIONS if name != "q" else ("Call", "TakeP", "LeaveP", "Return")
+    chk.add_tlc("ScoreAssign %s" % cfg, res, require_cover=(need if res.coverage else ()))
+    if res.violated:
+        raise common.MachineryError("ScoreAssign model (%s) violates %s" % (cfg, res.violated))
+    recs = [json.loads(line) for line in res.printed]
+    if len(recs) != nexp:
+        raise common.MachineryError("%s: expected %d finished behaviours, got %d" % (cfg, nexp, len(recs)))
+    cnt = chk.notes.setdefault("mode_A", {})
+    fam = cnt.setdefault(name, {"behaviours": len(recs), "release_branch_behaviours": 0, "stale_error_behaviours": 0, "fight": 0,
+                                "assign_peaks_to_grains": 0, "getind": 0, "prepare_peaks_from_2d": 0, "kernel_calls": 0})
+    groups = sorted(L.group_by_order(recs).items())
+    for order, cases in groups:
+        pk = L.Packed(cases, G)
+        total = max(TOTAL, pk.P + 7)
+        for t in cases:
+            k2 = any(sum(1 for r in range(pk.R) if t["err"][r][k] < 3) >= 2 for k in range(pk.K))
+            chk.case((name, json.dumps(t["err"]), order, tuple(t["lab0"]), tuple(t["dr0"])), nontrivial=k2)
+            fam["release_branch_behaviours"] += int(any(a != -1 and b == -1 for s0, s1 in zip([{"labels": t["lab0"]}] + t["snaps"][:-1], t["snaps"])
+                                                        for a, b in zip(s0["labels"], s1["labels"])))
+            fam["stale_error_behaviours"] += int(any(d < 3 for d in t["dr0"]))
+        chk.traces += len(cases)
+        if order == groups[0][0]:
+            chk.sample({"config": name, "behaviour": cases[len(cases) // 2]})
+        probs = []
+        # one-based labels (0 = the foreign value) at every thread count; zero-based labels (what every caller uses: a
+        # zero filled buffer then holds the first grain's label) at two
+        for labmap, threads, inits in (("one", L.THREADS, ((1.0, 2.0) if name == "q" else (1.0,))), ("zero", (3, 16), (2.0,))):
+            probs += pk.run_raw(c, threads, total, labmap=labmap, inits=inits)
+            fam["kernel_calls"] += len(threads) * len(inits) * len(order)
+        route_probs = []
+        try:
+            route_probs += caller_routes(c, mods, fam, pk, cases, order, G)
+        except common.MachineryError:
+            raise
+        except Exception as e:
+            route_probs.append(("a caller of score_and_assign raised %s: %s (order %s)" % (type(e).__name__, str(e)[:300], list(order)), cases[0]))
+        for what, case in probs:
+            chk.violation(what, {"table": case, "G": G, "total": total, "route": "raw"})
+        for what, case in route_probs:
+            chk.violation(what, {"table": case, "G": G, "total": total, "route": "callers"})
+        if len(chk.violations) > 10:
+            break
+    return recs
+
+
+def caller_routes(c, mods, fam, pk, cases, order, G):
+    """the callers on the behaviours they can produce (every one is a fresh single pass); returns [(what, behaviour)]"""
+    probs = []
+    fresh = [t for t in cases if t["pass"] == 1 and all(x == -1 for x in t["lab0"])]
+    if fresh:
+        probs += L.Packed(fresh, G).run_fight(c, mods["indexing"], (1, 3, 16), max(TOTAL, len(fresh) * pk.K + 7))
+        fam["fight"] += len(fresh)
+    # a ZERO filled label buffer with zero based labels = the buffer holds the label of the first grain presented
+    zf = [t for t in cases if t["pass"] == 1 and all(x == L.row_label(order[0], G) for x in t["lab0"])]
+    if zf and len(order) > 1:
+        probs += L.Packed(zf, G).run_nb(c, mods, (1, 5), max(TOTAL, len(zf) * pk.K + 7))
+        fam["assign_peaks_to_grains"] += len(zf)
+    if len(order) == 1:
+        gi = [t for t in cases if t["lab0"] == [0] and t["dr0"] == [3]]                              # a value that is not the label
+        own = [t for t in cases if t["lab0"] == [L.row_label(order[0], G)] and t["dr0"] == [3]]    # the label itself (grain_label=0)
+        if gi:
+            probs += L.Packed(gi, G).run_getind(c, mods["indexing"], TOTAL)
+            probs += L.Packed(gi, G).run_sino(c, mods, TOTAL, 5)
+            fam["getind"] += len(gi)
+            fam["prepare_peaks_from_2d"] += len(gi)
+        if own:
+            probs += L.Packed(own, G).run_sino(c, mods, TOTAL, 0)
+            fam["prepare_peaks_from_2d"] += len(own)
+    return probs
+
+
+def replay_table(chk, mods, case):
+    """one behaviour, tiled: raw calls and every caller it qualifies for"""
+    t, G, total = case["table"], case.get("G", 3), case.get("total", TOTAL)
+    c = mods["c"]
+    order = t["order"]
+    pk = L.Packed([t], G)
+    probs = []
+    for labmap in ("one", "zero"):
+        probs += pk.run_raw(c, L.THREADS, total, labmap=labmap)
+    if t["pass"] == 1 and all(x == -1 for x in t["lab0"]):
+        probs += pk.run_fight(c, mods["indexing"], (1, 3, 16), total)
+    if t["pass"] == 1 and len(order) > 1 and all(x == L.row_label(order[0], G) for x in t["lab0"]):
+        probs += pk.run_nb(c, mods, (1, 5), total)
+    if len(order) == 1 and t["dr0"] == [3]:
+        if t["lab0"] == [0]:
+            probs += pk.run_getind(c, mods["indexing"], total)
+            probs += pk.run_sino(c, mods, total, 5)
+        if t["lab0"] == [L.row_label(order[0], G)]:
+            probs += pk.run_sino(c, mods, total, 0)
     return probs
 
 
 # ---------------------------------------------------------------------------------------------
-# mode C: realistic recorded runs
+# mode C
 
-def random_rotation(rng):
-    q = rng.normal(size=4)
-    q /= np.linalg.norm(q)
-    a, b, cc, d = q
-    return np.array([[a * a + b * b - cc * cc - d * d, 2 * (b * cc - a * d), 2 * (b * d + a * cc)],
-                     [2 * (b * cc + a * d), a * a - b * b + cc * cc - d * d, 2 * (cc * d - a * b)],
-                     [2 * (b * d - a * cc), 2 * (cc * d + a * b), a * a - b * b - cc * cc + d * d]])
+class ModeC(object):
+    def __init__(self, chk, mods):
+        self.chk, self.mods, self.c = chk, mods, mods["c"]
+        self.recs = []            # trace records
+        self.real_n = {}          # cid -> (returned counts per call event, number of peaks not kept)
+        self.meta = {}
+        self.count = {}
 
+    @contextlib.contextmanager
+    def guarded(self, route, meta):
+        """a caller that raises on the inputs of the property is a violation, not a machinery error"""
+        try:
+            yield
+        except common.MachineryError:
+            raise
+        except Exception as e:
+            self.chk.violation("%s raised %s: %s" % (route, type(e).__name__, str(e)[:300]), dict(meta, route=route))
 
-def make_case(rng, G, K, big=False, simple=False):
-    a = 3.0 + rng.random() * 3
-    B0i = np.diag([a, a * (1 + 0.2 * rng.random()), a * (1 + 0.4 * rng.random())])
-    ubis = []
-    for g in range(G):
-        kind = rng.integers(0, 4) if not simple else 3
-        if g > 0 and kind == 0:          # twin-like: small rotation of an earlier grain
-            ang = rng.random() * 0.02
-            R = np.array([[np.cos(ang), -np.sin(ang), 0], [np.sin(ang), np.cos(ang), 0], [0, 0, 1]])
-            ubis.append(ubis[rng.integers(0, g)] @ R.T)
-        elif g > 0 and kind == 1:        # overlapping lattice: 90 degree permutation of an earlier grain
-            P = np.array([[0, 1, 0], [-1, 0, 0], [0, 0, 1]], float)
-            ubis.append(P @ ubis[rng.integers(0, g)])
+    def hit(self, what, n=1):
+        self.count[what] = self.count.get(what, 0) + n
+
+    def add(self, cid, rk, G, rowlabel, lab0, events, meta, hist=None, init=None, floor=None):
+        rr, allkept = L.block_traces(cid, rk, G, rowlabel, lab0, events, hist=hist, init=init, floor=floor, block=256)
+        if not rr:
+            return False
+        self.recs += rr
+        ns = [ev["n"] for ev in events if ev["kind"] == "call"]
+        if all(n >= 0 for n in ns):
+            self.real_n[cid] = (ns, int(rk.K - rk.keep.sum()))
+        self.meta[cid] = meta
+        self.chk.traces += 1
+        return True
+
+    def judge_py(self, what, rk, rows, lab_model, dr, meta, seglab=None, floor=None):
+        """independent judgement of the final state of a fresh single pass over `rows` (0-based) in plain numpy: kept peaks
+        only.  lab_model: model numbering where label i+1 = rows[i]"""
+        exp, none = rk.expected(rows)
+        k = rk.keep
+        lab_model = np.asarray(lab_model)
+        nobody = -1 if seglab is None else np.where(np.asarray(seglab) == 0, 0, -1)
+        bad = k & none & (lab_model != nobody)
+        if bad.any():
+            self.chk.violation("%s: %d peaks indexed by no grain are not labelled unassigned" % (what, int(bad.sum())), meta)
+            return False
+        asg = k & ~none
+        ok = np.zeros(rk.K, bool)
+        li = np.clip(lab_model, 1, len(rows)) - 1
+        ok[asg] = (lab_model[asg] >= 1) & exp[li[asg], np.nonzero(asg)[0]]
+        bad = asg & ~ok
+        if bad.any():
+            self.chk.violation("%s: %d peaks are not with their best-fitting grain" % (what, int(bad.sum())), meta)
+            return False
+        if dr is not None:
+            r = rk.dr_rank(dr, floor=floor)
+            mn = rk.rank[rows].min(axis=0)
+            bad = asg & (r != mn)
+            if bad.any():
+                self.chk.violation("%s: the stored error of %d peaks is not the minimum" % (what, int(bad.sum())), meta)
+                return False
+        return True
+
+    # ---- one raw-kernel case through every route
+    def raw_case(self, cid, ubis, gv, tol, order, rng, big, tier):
+        chk, c, mods = self.chk, self.c, self.mods
+        G, K = len(ubis), len(gv)
+        errs = np.array([L.hkl_err(u, gv) for u in ubis])
+        rk = L.Ranked(errs, tol * tol, L.ident_matrix(ubis))
+        if not rk.keep.any():
+            return False
+        meta = {"G": G, "K": K, "tol": tol, "order": order, "ubis": [u.tolist() for u in ubis],
+                "gv": gv.tolist() if K <= 300 else "omitted (seeded)", "seed": common.seed(), "case": cid}
+        ident = list(range(1, G + 1))
+        # (a) fresh buffers, labels 1..G, every thread count gives the same log
+        rows = [(ubis[g], tol, g + 1) for g in range(G)]
+        logs = None
+        for nt in (L.THREADS if big else (1, 16)):
+            ev = L.record(c, rows, gv, order, nt, np.full(K, -1, np.int32), np.full(K, 1.0))
+            if logs is None:
+                logs = ev
+            elif L.log_key(ev) != L.log_key(logs):
+                chk.violation("score_and_assign log with %d threads differs from the 1-thread log (G=%d K=%d tol=%g)" % (nt, G, K, tol),
+                              dict(meta, threads=nt))
+        events = [{"kind": "call", "row": r, "n": n, "labels": L.to_model(lab, 1, G), "dr": dr} for (r, n, lab, dr) in logs]
+        if not self.add(cid + "/fresh", rk, G, ident, np.full(K, -1), events, dict(meta, route="raw, fresh buffers"), init=1.0):
+            return False
+        self.hit("raw_fresh")
+        chk.case((cid,), nontrivial=rk.contested)
+        final_lab, final_dr = logs[-1][2], logs[-1][3]
+        # (b) another order: same answer apart from exact ties (judged against the argmin, not against run (a))
+        order2 = list(reversed(order)) if G > 1 else order
+        ev2 = L.record(c, rows, gv, order2, 4, np.full(K, -1, np.int32), np.full(K, 2.0))
+        if big:
+            self.judge_py("second grain order (raw calls)", rk, list(range(G)), L.to_model(ev2[-1][2], 1, G), ev2[-1][3],
+                          dict(meta, order=order2), floor=tol * tol)
         else:
-            ubis.append(B0i @ random_rotation(rng).T)
-    gv = []
-    for k in range(K):
-        if rng.random() < 0.15:
-            gv.append(rng.normal(size=3) * 0.5)            # stray
+            events = [{"kind": "call", "row": r, "n": n, "labels": L.to_model(lab, 1, G), "dr": dr} for (r, n, lab, dr) in ev2]
+            self.add(cid + "/order2", rk, G, ident, np.full(K, -1), events, dict(meta, order=order2, route="raw, second order"), init=2.0)
+        self.hit("raw_second_order")
+        # (c) ZERO filled label buffer, labels = list positions 0..G-1 (what assign_peaks_to_grains does)
+        pos_rows = [(ubis[r - 1], tol, i) for i, r in enumerate(order)]          # row i+1 = i-th presented grain
+        rkp = L.Ranked(errs[[r - 1 for r in order]], tol * tol, L.ident_matrix([ubis[r - 1] for r in order]))
+        evz = L.record(c, pos_rows, gv, ident, (3 if big else 1), np.zeros(K, np.int32), np.full(K, 1.0))
+        if big:
+            self.judge_py("zero filled label buffer (raw calls)", rkp, list(range(G)), L.to_model(evz[-1][2], 0, G), evz[-1][3], meta,
+                          floor=tol * tol)
         else:
-            g = rng.integers(0, G)
-            h = rng.integers(-4, 5, size=3).astype(float)
-            noise = rng.normal(size=3) * [0.0, 0.01, 0.05, 0.15][rng.integers(0, 4)]
-            gv.append(np.linalg.inv(ubis[g]) @ (h + noise))
-    tol = [0.5, 0.25, 0.1, 0.05, 0.02][rng.integers(0, 5)] if not big else 0.1
-    return ubis, np.ascontiguousarray(np.array(gv)), tol
+            events = [{"kind": "call", "row": r, "n": n, "labels": L.to_model(lab, 0, G), "dr": dr} for (r, n, lab, dr) in evz]
+            self.add(cid + "/zero", rkp, G, ident, np.full(K, 1), events, dict(meta, route="raw, zero filled labels, zero based"), init=1.0)
+        self.hit("raw_zero_filled")
+        nun = int((evz[-1][2] == -1).sum())
+        self.hit("raw_zero_filled_released_peaks", nun)
+        # (d) indexer.fight_over_peaks: same calls as (a) with labels = positions, drlv2 from 2
+        with self.guarded("indexer.fight_over_peaks", meta):
+            with L.quiet():
+                ind = mods["indexing"].indexer(gv=gv, hkl_tol=tol)
+            ind.ubis = [ubis[r - 1] for r in order]
+            with L.omp(c, 3 if big else 1), L.quiet():
+                ind.fight_over_peaks()
+            ga = np.asarray(ind.ga)
+            if list(ind.gas) != np.bincount(ga[ga >= 0], minlength=G).tolist() or len(ind.gas) != G:
+                chk.violation("indexer.fight_over_peaks: gas %s is not the histogram of the labels ga %s" % (
+                    [int(x) for x in ind.gas], np.bincount(ga[ga >= 0], minlength=G).tolist()), dict(meta, route="fight_over_peaks"))
+            # the positions name the same grains as run (a) (same sequence of kernel calls, other label values and initial error)
+            want = np.array([-1] + [order.index(g + 1) for g in range(G)])[np.where(final_lab < 0, 0, final_lab)]
+            asg = final_lab >= 0
+            if not np.array_equal(ga, want) or not np.array_equal(ind.drlv2[asg], final_dr[asg]) or not (ind.drlv2[~asg] >= tol * tol).all():
+                chk.violation("indexer.fight_over_peaks: .ga / .drlv2 differ from the same calls made directly", dict(meta, route="fight_over_peaks"))
+            if big:
+                self.judge_py("indexer.fight_over_peaks", rkp, list(range(G)), L.to_model(ga, 0, G), ind.drlv2, meta, floor=tol * tol)
+            else:
+                events = [{"kind": "call", "row": i + 1, "n": -1, "labels": None, "dr": None} for i in range(G - 1)]
+                events.append({"kind": "call", "row": G, "n": -1, "labels": L.to_model(ga, 0, G), "dr": ind.drlv2.copy()})
+                self.add(cid + "/fight", rkp, G, ident, np.full(K, -1), events, dict(meta, route="indexer.fight_over_peaks"),
+                         hist=[int(x) for x in ind.gas], floor=tol * tol)
+            self.hit("fight_over_peaks")
+        # (e) nb_utils.assign_peaks_to_grains
+        with self.guarded("nb_utils.assign_peaks_to_grains", meta):
+            cf = mods["columnfile"].colfile_from_dict({"gx": gv[:, 0].copy(), "gy": gv[:, 1].copy(), "gz": gv[:, 2].copy()})
+            grains = [mods["grain"].grain(ubis[r - 1]) for r in order]
+            with L.omp(c, 5 if big else 1), L.quiet():
+                mods["nb_utils"].assign_peaks_to_grains(grains, cf, tol)
+            gid = np.rint(np.asarray(cf.grain_id)).astype(int)
+            gdr = np.asarray(cf.drlv2, float)
+            if not np.array_equal(gid, evz[-1][2]) or not np.array_equal(gdr, evz[-1][3]):
+                chk.violation("nb_utils.assign_peaks_to_grains: grain_id / drlv2 differ from the same calls made directly",
+                              dict(meta, route="assign_peaks_to_grains"))
+            if big:
+                self.judge_py("nb_utils.assign_peaks_to_grains", rkp, list(range(G)), L.to_model(gid, 0, G), gdr, meta, floor=tol * tol)
+            else:
+                events = [{"kind": "call", "row": i + 1, "n": -1, "labels": None, "dr": None} for i in range(G - 1)]
+                events.append({"kind": "call", "row": G, "n": -1, "labels": L.to_model(gid, 0, G), "dr": gdr})
+                self.add(cid + "/nb", rkp, G, ident, np.full(K, 1), events, dict(meta, route="nb_utils.assign_peaks_to_grains"), floor=tol * tol)
+            self.hit("assign_peaks_to_grains")
+        # (f) one grain at a time: indexer.getind (dirty / default work buffers), GrainSinogram.prepare_peaks_from_2d (label 0 / 7)
+        with self.guarded("indexer.getind / GrainSinogram.prepare_peaks_from_2d", meta):
+            g1 = int(rng.integers(0, G))
+            rk1 = L.Ranked(errs[[g1]], tol * tol, [[True]])
+            dtmp, ltmp = np.full(K, 1e-9), np.full(K, 1, np.int32)
+            with L.quiet():
+                ind1 = mods["indexing"].indexer(gv=gv, hkl_tol=tol)
+                m1 = np.asarray(ind1.getind(ubis[g1], drlv2tmp=dtmp, labelstmp=ltmp), bool)
+                m2 = np.asarray(ind1.getind(ubis[g1]), bool)
+            if not np.array_equal(m1, m2):
+                chk.violation("indexer.getind: supplied (dirty) work buffers and default buffers give different masks", dict(meta, route="getind", grain=g1))
+            events = [{"kind": "call", "row": 1, "n": int(m1.sum()), "labels": np.where(m1, 1, 0), "dr": dtmp.copy()}]
+            self.add(cid + "/getind", rk1, 1, [1], np.zeros(K, int), events, dict(meta, route="indexer.getind", grain=g1), init=1.0)
+            self.hit("getind")
+            for glabel in (0, 7):
+                cf2 = mods["columnfile"].colfile_from_dict({
+                    "gx": gv[:, 0].copy(), "gy": gv[:, 1].copy(), "gz": gv[:, 2].copy(), "dty": np.arange(K, dtype=float),
+                    "omega": np.zeros(K), "eta": np.zeros(K), "sum_intensity": np.ones(K)})
+                with L.quiet():
+                    gs = mods["sinogram"].GrainSinogram(mods["grain"].grain(ubis[g1]), mods["dataset"].DataSet())
+                    gs.prepare_peaks_from_2d(cf2, glabel, hkltol=tol)
+                got = np.zeros(K, bool)
+                got[np.rint(np.asarray(gs.cf_for_sino.dty)).astype(int)] = True
+                seg0 = np.full(K, 1 if glabel == 0 else 0)
+                lab = np.where(got, 1, np.where(seg0 == 0, 0, -1))
+                self.judge_py("GrainSinogram.prepare_peaks_from_2d(grain_label=%d)" % glabel, rk1, [0], lab, None,
+                              dict(meta, route="prepare_peaks_from_2d", grain=g1), seglab=seg0)
+                self.hit("prepare_peaks_from_2d")
+        # (g) the grains moved: a second pass over the buffers of pass (a) - stale labels, stored errors reset or stale,
+        #     some grains unchanged (their label is presented again with the same error: released), other tolerance
+        #     (small cases only: mode A runs every such history exactly at 20487 peaks)
+        if not big:
+            tol2 = tol if rng.random() < 0.5 else tol * float(rng.choice([0.5, 2.0]))
+            moved = [ubis[g] if rng.random() < 0.3 else ubis[g] @ L.c09_sim.small_rotation(rng, rng.uniform(0.002, 0.02)).T for g in range(G)]
+            rows2 = rows + [(moved[g], tol2, g + 1) for g in range(G)]
+            errs2 = np.vstack([errs, np.array([L.hkl_err(u, gv) for u in moved])])
+            rk2 = L.Ranked(errs2, np.array([tol * tol] * G + [tol2 * tol2] * G), L.ident_matrix(ubis + moved))
+            reset = bool(rng.random() < 0.5)
+            seq2 = [int(x) + G for x in rng.permutation(G) + 1]
+            lab, dr = np.full(K, -1, np.int32), np.full(K, 1.0)
+            ev1 = L.record(c, rows2, gv, order, 1, lab, dr)
+            if reset:
+                dr[:] = 1.0
+            ev3 = L.record(c, rows2, gv, seq2, 2, lab, dr)
+            events = [{"kind": "call", "row": r, "n": n, "labels": L.to_model(lb, 1, G), "dr": d} for (r, n, lb, d) in ev1]
+            if reset:
+                events.append({"kind": "reset"})
+            events += [{"kind": "call", "row": r, "n": n, "labels": L.to_model(lb, 1, G), "dr": d} for (r, n, lb, d) in ev3]
+            if self.add(cid + "/moved", rk2, G, ident + ident, np.full(K, -1), events,
+                        dict(meta, route="raw, second pass after the grains moved (%s stored errors)" % ("reset" if reset else "stale"),
+                             moved=[u.tolist() for u in moved], tol2=tol2, seq2=seq2, reset=reset), init=1.0):
+                self.hit("second_pass_reset" if reset else "second_pass_stale")
+                rel = sum(int(((a[2] >= 0) & (b[2] == -1)).sum()) for a, b in zip([ev1[-1]] + ev3[:-1], ev3))
+                self.hit("second_pass_released_peaks", rel)
+        return True
+
+    # ---- refinegrains.assignlabels
+    def geo_case(self, cid, case, tol, orders, threads, rng, files=None, twice=False, ntrace=9):
+        """one simulated detector data set through refinegrains.assignlabels: every grain order (the first `ntrace` are
+        validated by TLC, the others judged in numpy), every thread count, optionally a second call after the grains
+        moved and the file route"""
+        grains = case["grains"]
+        G, K = len(grains), len(case["sc"])
+        meta0 = {"route": "refinegrains.assignlabels", "case": cid, "family": case["family"], "G": G, "K": K, "tol": tol,
+                 "positions": case["which"], "seed": common.seed()}
+        errs = L.geo_errs(case["sc"], case["fc"], case["omega"], grains, case["pars"])
+        for oi, order in enumerate(orders):
+            with self.guarded("refinegrains.assignlabels", dict(meta0, order=order)):
+                self._geo_order(cid, case, tol, oi, order, threads, errs, dict(meta0, order=order), oi < ntrace)
+        if twice:
+            with self.guarded("refinegrains.assignlabels (second call)", dict(meta0, order=orders[0], again=True)):
+                self._geo_again(cid, case, tol, orders[0], threads[0], rng, dict(meta0, order=orders[0], again=True))
+        for with_t in (files or ()):
+            meta = dict(meta0, order=orders[-1], files=True, with_translations=with_t)
+            with self.guarded("refinegrains.assignlabels (files)", meta):
+                self._geo_files(cid, case, tol, orders[-1], threads[0], with_t, meta)
+
+    @staticmethod
+    def _route_events(G, labels_model, dr):
+        """inside a caller only the buffers after the last call are observable"""
+        events = [{"kind": "call", "row": i + 1, "n": -1, "labels": None, "dr": None} for i in range(G - 1)]
+        events.append({"kind": "call", "row": G, "n": -1, "labels": labels_model, "dr": dr})
+        return events
+
+    def _geo_order(self, cid, case, tol, oi, order, threads, errs, meta, trace):
+        chk, c, mods = self.chk, self.c, self.mods
+        grains = case["grains"]
+        G, K = len(grains), len(case["sc"])
+        first = None
+        # from the second order on the scan already carries a labels column filled with the first grain's label and tiny errors
+        stale = None if oi == 0 else (np.full(K, float(order[0])), np.full(K, 1e-9))
+        for nt in threads:
+            lab, dr, npks, rg = L.run_assignlabels(c, mods, case, grains, order, tol, nt, stale=stale)
+            if first is None:
+                first = (lab, dr, npks)
+            elif not (np.array_equal(lab, first[0]) and np.array_equal(dr, first[1]) and npks == first[2]):
+                chk.violation("refinegrains.assignlabels: result with %d threads differs from %d threads" % (nt, threads[0]), dict(meta, threads=nt))
+        lab, dr, npks = first
+        li = np.rint(lab).astype(int)
+        if npks != np.bincount(li[li >= 0], minlength=G).tolist():
+            chk.violation("refinegrains.assignlabels: npks %s is not the histogram of the labels column %s" % (
+                npks, np.bincount(li[li >= 0], minlength=G).tolist()), meta)
+        # rows = grains in presentation order; row i is presented under the label order[i] (model label order[i] + 1)
+        rows = [int(g) for g in order]
+        rkp = L.Ranked(errs[rows], tol * tol, L.ident_matrix([grains[g][0] for g in rows], [grains[g][1] for g in rows]))
+        if trace:
+            done = self.add("%s/o%d" % (cid, oi), rkp, G, [g + 1 for g in rows], np.full(K, -1), self._route_events(G, L.to_model(li, 0, G), dr),
+                            meta, hist=npks, floor=tol * tol)
+        else:
+            pos = np.array([rows.index(g) + 1 for g in range(G)])                  # judge_py numbers the labels by row
+            done = self.judge_py("refinegrains.assignlabels", rkp, list(range(G)), np.where(li < 0, -1, pos[np.clip(li, 0, G - 1)]), dr, meta,
+                                 floor=tol * tol)
+        if done:
+            which = case["which"]
+            self.hit("assignlabels")
+            self.hit("assignlabels_contested_peaks", int(((rkp.rank < rkp.E).sum(axis=0) >= 2).sum()))
+            apart = any(which[order[i]] == which[order[j]] and any(which[order[m]] != which[order[i]] for m in range(i + 1, j))
+                        for i in range(G) for j in range(i + 2, G))
+            self.hit("assignlabels_shared_position_apart", int(apart))
+        chk.case((cid, tuple(order)), nontrivial=rkp.contested)
+
+    def _geo_again(self, cid, case, tol, order, nt, rng, meta):
+        """a second call on the same object after the grains moved (what makemap does between refinements)"""
+        c, mods = self.c, self.mods
+        grains = case["grains"]
+        G, K = len(grains), len(case["sc"])
+        lab, dr, npks, rg = L.run_assignlabels(c, mods, case, grains, order, tol, nt)
+        moved = []
+        for gi, (ubi, t) in enumerate(grains):
+            u2 = ubi @ L.c09_sim.small_rotation(rng, 0.004).T
+            t2 = t + rng.uniform(-40, 40, size=3) if gi % 2 == 0 else t.copy()
+            gr = rg.grains[(gi, "scan")]
+            gr.set_ubi(u2)
+            gr.translation = t2.copy()
+            moved.append((np.array(gr.ubi, float), t2))
+        with L.omp(c, nt), L.quiet(), np.errstate(invalid="ignore", divide="ignore"):
+            rg.assignlabels(quiet=True)
+        cf = rg.scandata["scan"]
+        li = np.rint(np.asarray(cf.labels)).astype(int)
+        rows = [int(g) for g in order]
+        e2 = L.geo_errs(case["sc"], case["fc"], case["omega"], moved, case["pars"])
+        rk2 = L.Ranked(e2[rows], tol * tol, L.ident_matrix([moved[g][0] for g in rows], [moved[g][1] for g in rows]))
+        npks2 = [int(rg.grains[(gi, "scan")].npks) for gi in range(G)]
+        if self.add(cid + "/again", rk2, G, [g + 1 for g in rows], np.full(K, -1),
+                    self._route_events(G, L.to_model(li, 0, G), np.asarray(cf.drlv2, float)), meta, hist=npks2, floor=tol * tol):
+            self.hit("assignlabels_second_call_after_move")
+
+    def _geo_files(self, cid, case, tol, order, nt, with_t, meta):
+        """parameter file + grain file (in presentation order) + peak file; without #translation lines every grain sits at
+        the parameter file's t_x, t_y, t_z.  The reference uses what the object holds after the text round trip."""
+        chk, c, mods = self.chk, self.c, self.mods
+        grains = case["grains"]
+        G, K = len(grains), len(case["sc"])
+        gl = grains if with_t else [(u, grains[0][1]) for (u, t) in grains]
+        lab, dr, npks, held, cols, heldpars = L.run_assignlabels_files(c, mods, case, gl, order, tol, nt, with_translations=with_t)
+        li = np.rint(lab).astype(int)
+        pp = dict(case["pars"])
+        for k in pp:
+            if k in heldpars and not isinstance(pp[k], str):
+                pp[k] = float(heldpars[k])
+        e3 = L.geo_errs(cols["sc"], cols["fc"], cols["omega"], held, pp)            # held: in file (= presentation) order
+        rk3 = L.Ranked(e3, tol * tol, L.ident_matrix([h[0] for h in held], [h[1] for h in held]))
+        if npks != np.bincount(li[li >= 0], minlength=G).tolist():
+            chk.violation("refinegrains.assignlabels (files): npks is not the histogram of the labels column", meta)
+        if self.add("%s/files%d" % (cid, int(with_t)), rk3, G, list(range(1, G + 1)), np.full(K, -1),
+                    self._route_events(G, L.to_model(li, 0, G), dr), meta, hist=npks, floor=tol * tol):
+            self.hit("assignlabels_files" if with_t else "assignlabels_files_no_translations")
+
+    # ---- TLC
+    def validate(self, tag="modeC", extra=()):
+        """extra: the self-test records (ids selftest/...), validated in the same TLC run; their verdicts are returned"""
+        chk = self.chk
+        if not self.recs and not extra:
+            return {}
+        verdicts, sums, rejected = validate(chk, self.recs + list(extra), tag)
+        for cid, (r, v) in rejected.items():
+            if cid == "selftest":
+                continue
+            chk.violation("%s: trace rejected by TraceScoreAssign: %s (block %s, consumed %d events)" % (
+                self.meta[cid].get("route", "?"), v["why"], r["id"], v["consumed"]), dict(self.meta[cid], rejected_block=r))
+        njudged = 0
+        for cid, (ns, nout) in self.real_n.items():
+            if cid in rejected:
+                continue
+            s = sums.get(cid)
+            njudged += 1
+            if s is None or len(s) != len(ns) or any(not (a <= b <= a + nout) for a, b in zip(s, ns)):
+                chk.violation("%s: returned counts %s differ from the specification's counts %s (+ at most %d peaks not ranked)" % (
+                    self.meta[cid].get("route", "?"), ns, s, nout), self.meta[cid])
+        chk.notes["block_traces"] = len(self.recs)
+        chk.notes["runs_with_returned_counts_judged"] = njudged
+        chk.notes["mode_C_routes"] = dict(sorted(self.count.items()))
+        return verdicts
 
 
-def clearly_distinct(a, b):
-    return abs(a - b) > 1e-6 * max(a, b) + 1e-15
-
-
-def same_value(a, b):
-    return abs(a - b) <= 1e-9 * max(a, b) + 1e-20
-
-
-def peak_ranks(ubis, errs, tol2):
-    """per-peak dense ranks of the reference errors among the grains that index the peak (E = G + 1 otherwise).
-    A peak is *kept* only if binary64 cannot blur the order: every reference error is clearly away from tol^2, and
-    any two in-tolerance errors are clearly distinct, or belong to bit-identical UBIs (a true tie in the kernel too).
-    returns (rank[G][K], keep[K], E)"""
-    G, K = errs.shape
-    E = G + 1
-    rank = np.full((G, K), E, int)
-    keep = np.ones(K, bool)
-    ident = [[np.array_equal(ubis[g], ubis[h]) for h in range(G)] for g in range(G)]
-    for k in range(K):
-        v = errs[:, k]
-        if (np.abs(v - tol2) < 1e-6 * tol2).any():
-            keep[k] = False
-            continue
-        ins = [g for g in range(G) if v[g] < tol2]
-        ok = True
-        for i, g in enumerate(ins):
-            for h in ins[i + 1:]:
-                if not ident[g][h] and not clearly_distinct(v[g], v[h]):
-                    ok = False
-        if not ok:
-            keep[k] = False
-            continue
-        order = sorted(ins, key=lambda g: v[g])
-        r = -1
-        prev = None
-        for g in order:
-            if prev is None or not ident[prev][g]:
-                r += 1
-            rank[g, k] = r
-            prev = g
-    return rank, keep, E
-
-
-def record(c, indexing, ubis, gv, tol, order, nt, init=1.0):
-    labels = np.full(len(gv), -1, np.int32)
-    drlv2 = np.full(len(gv), init)
-    ev = []
-    old = c.cimaged11_omp_get_max_threads()
-    try:
-        c.cimaged11_omp_set_num_threads(nt)
-        for g in order:
-            n = c.score_and_assign(ubis[g - 1], gv, tol, drlv2, labels, g)
-            ev.append((g, int(n), labels.copy(), drlv2.copy()))
-    finally:
-        c.cimaged11_omp_set_num_threads(old)
-    return ev
-
-
-def traces_for(case_id, ubis, gv, tol, order, ev, indexing, init=1.0):
-    """ndjson records (blocks of BLOCK kept peaks) for one recorded run; returns (records, all_kept)"""
-    G, K = len(ubis), len(gv)
-    errs = np.array([indexing.calc_drlv2(u, gv) for u in ubis])
-    rank, keep, E = peak_ranks(ubis, errs, tol * tol)
-    kept = np.nonzero(keep)[0]
-    recs = []
-    for b0 in range(0, len(kept), BLOCK):
-        idx = kept[b0:b0 + BLOCK]
-        evs = []
-        for (g, n, lab, dr) in ev:
-            r = []
-            for k in idx:
-                d = dr[k]
-                if d == init:
-                    r.append(E)
-                    continue
-                # the stored value must be the (kernel's) error of some in-tolerance grain of this peak
-                cand = [h for h in range(G) if rank[h, k] < E and same_value(errs[h, k], d)]
-                r.append(int(rank[cand[0], k]) if cand else -2)
-            evs.append({"g": int(g), "n": -1, "labels": lab[idx].tolist(), "dr": r})
-        hist = [int((ev[-1][2][idx] == g).sum()) for g in range(1, G + 1)]
-        recs.append({"id": "%s/%d" % (case_id, b0 // BLOCK), "G": G, "K": len(idx), "E": E,
-                     "err": [rank[g, idx].tolist() for g in range(G)], "ev": evs, "hist": hist})
-    return recs, bool(keep.all())
-
-
-def validate(chk, recs, expect_n, tag):
-    """run TraceScoreAssign on recs; expect_n: case_id -> list of real returned counts per event"""
+def validate(chk, recs, tag):
+    """run TraceScoreAssign on recs; returns verdicts, per-run sums of the model's counts, first rejected block per run"""
     path = os.path.join(common.scratch(), "trace_sa_%s.ndjson" % tag)
     with open(path, "w") as f:
         for r in recs:
@@ -238,193 +526,199 @@ def validate(chk, recs, expect_n, tag):
         cid = r["id"].rsplit("/", 1)[0]
         if not v["ok"]:
             rejected.setdefault(cid, (r, v))
-        s = sums.setdefault(cid, [0] * len(r["ev"]))
+        ncall = sum(1 for e in r["ev"] if e["kind"] == "call")
+        s = sums.setdefault(cid, [0] * ncall)
         for i, x in enumerate(v.get("ns", [])):
             s[i] += x
     return verdicts, sums, rejected
+
+
+def mode_c(chk, mods, tier, rng, extra=()):
+    mc = ModeC(chk, mods)
+    ncase = 60 if tier == "quick" else 400
+    tried = done = 0
+    while done < ncase and tried < ncase * 5:
+        tried += 1
+        bigcase = (done % 20 == 19)
+        G = int(rng.integers(1, 9)) if not bigcase else int(rng.integers(10, 51 if tier == "thorough" else 21))
+        K = int(rng.integers(10, 200)) if not bigcase else (2 * L.CHUNK + 8 if tier == "quick" else int(rng.choice([2 * L.CHUNK + 8, 20000, 100000])))
+        ubis, gv, tol = L.make_case(rng, G, K, big=bigcase)
+        order = [int(x) for x in rng.permutation(G) + 1]
+        if mc.raw_case("c%d" % tried, ubis, gv, tol, order, rng, bigcase, tier):
+            done += 1
+        if len(chk.violations) > 10:
+            break
+    # a list of 50 UBIs (the upper end of the quantifier) on a small peak list, and a single UBI on a large one
+    ubis, gv, tol = L.make_case(rng, 50, 150, big=True)
+    mc.raw_case("cfifty", ubis, gv, tol, [int(x) for x in rng.permutation(50) + 1], rng, True, tier)
+    ubis, gv, tol = L.make_case(rng, 1, L.CHUNK + 5, big=True)
+    mc.raw_case("cone", ubis, gv, tol, [1], rng, False, tier)
+    # refinegrains.assignlabels: per-grain g-vectors
+    plan = [("shared", 3, "F", 0.05), ("shared", 4, "F", 0.1), ("shared", 5, "F", 0.02), ("same", 3, "F", 0.05), ("distinct", 4, "F", 0.05)]
+    if tier == "thorough":
+        plan = plan * 6
+    kpar0 = int(rng.integers(0, 64))
+    for i, (fam, G, lat, tol) in enumerate(plan):
+        case = L.make_geo_case(rng, mods, kpar0 + 7 * i, G, fam, lattice=lat)
+        orders = [list(range(G)), [int(x) for x in rng.permutation(G)], list(range(G))[::-1]]
+        mc.geo_case("g%d" % i, case, tol, orders, (1,), rng, files=((True,) if i % 5 == 0 else (False,) if i % 5 == 3 else None), twice=(i % 5 == 1))
+        if len(chk.violations) > 10:
+            break
+    case = L.make_geo_case(rng, mods, kpar0 + 3, 14, "shared", lattice="P", nstray=400)          # > 4096 peaks: two OpenMP chunks
+    mc.geo_case("gbig", case, 0.05, [list(range(14)), [int(x) for x in rng.permutation(14)]], (1, 4, 16), rng, ntrace=1)
+    mc.hit("assignlabels_big_case_peaks", len(case["sc"]))
+    mc.verdicts = mc.validate(extra=extra)
+    return mc
+
+
+def observe_getind_default(chk, mods, rng):
+    """indexer.getind with its default buffers after assigntorings() left peaks without a ring: outside the statement
+    (no assignment is produced at all), recorded as an observation"""
+    with L.quiet():
+        uc = mods["unitcell"].unitcell([4.0, 4.0, 4.0, 90, 90, 90], "P")
+        hkl = rng.integers(-4, 5, size=(50, 3)).astype(float)
+        gv = np.concatenate([hkl / 4.0, rng.normal(size=(10, 3)) * 0.5])
+        ind = mods["indexing"].indexer(unitcell=uc, gv=gv, hkl_tol=0.05, wavelength=0.3)
+        ind.ds_tol = 0.01
+        try:
+            ind.assigntorings()
+            nring = int((ind.ra > -1).sum())
+            try:
+                ind.getind(np.eye(3) * 4.0)
+                out = "returns a mask"
+            except ValueError as e:
+                out = "raises ValueError (buffers sized len(gvflat)=%d, kernel given the %d peaks of .gv)" % (len(ind.gvflat), len(ind.gv))
+            m = ind.getind(np.eye(3) * 4.0, drlv2tmp=np.empty(len(ind.gv)), labelstmp=np.empty(len(ind.gv), np.int32))
+            out += "; with supplied buffers (the only call in the code base, scorethem) it returns a mask of %d peaks" % int(np.sum(m))
+        except Exception as e:                                   # an observation must never decide the verdict
+            out, nring = "probe failed: %r" % (e,), -1
+    chk.notes.setdefault("observations", []).append(
+        "indexer.getind(UBI) with default work buffers when %d of %d peaks are on a ring: %s" % (nring, len(gv), out))
 
 
 def run(tier, replay=None):
     chk = common.Check(PROP, tier)
     shadow = common.build_shadow("normal")
     common.use_shadow(shadow)
-    from ImageD11 import cImageD11 as c, indexing
-    chk.rule = ("mode A: every error table of ScoreAssign.tla (3 grains x 2 peaks x 4 levels, 6 orders) realised with exact "
-                "dyadic g-vectors, tiled across the 4096 chunk size, threads 1/2/4/16, two initial error values; mode C: seeded "
-                "runs with 1..50 UBIs (twins, overlapping lattices), 10..1e5 peaks, tolerances 0.02..0.5, random grain orders, "
-                "threads 1..32, recorded call by call and validated by TLC in blocks of 64 peaks; non-trivial = a peak is "
-                "within tolerance of >= 2 grains; distinct = distinct table/order or (case, order, threads)")
-    chk.assumptions = ["ranks of binary64 reference errors are only formed when distinct values differ by > 1e-9 relative "
-                       "(otherwise the case is regenerated); exact ties are produced only from exact dyadic tables",
-                       "real OpenMP interleavings are not observable: identical logs at every thread count are required",
-                       "refinegrains.assignlabels (per-grain recomputed g-vectors) is covered by C09's protocol check"]
+    mods = load_mods()
+    chk.rule = ("mode A: every behaviour of ScoreAssign.tla (q: 3 grains x 2 peaks x 4 levels x 6 orders; hist: all histories of <= 3 calls "
+                "over 2 labels x 3 UBI versions from every initial label (-1, foreign, either grain's) and stored error) realised with exact dyadic g-vectors, packed per presentation sequence and tiled to %d peaks "
+                "(6 chunks), threads 1/2/3/5/8/16/32, one- and zero-based labels, two initial error values, plus fight_over_peaks / "
+                "assign_peaks_to_grains / getind / prepare_peaks_from_2d on the behaviours they can produce; mode C: seeded runs with 1..50 "
+                "UBIs (twins, overlapping lattices), 10..1e5 peaks, tolerances 0.02..0.5, random grain orders through every route "
+                "(see notes mode_C_routes), refinegrains.assignlabels on simulated detector peaks with shared / equal / distinct grain "
+                "positions; recorded and validated by TLC in blocks of 256 peaks; non-trivial = a peak is within tolerance of >= 2 "
+                "grains; distinct = distinct behaviour or (case, order)" % TOTAL)
+    chk.assumptions = ["ranks of binary64 reference errors are only formed when distinct values differ by > 1e-6 relative and are "
+                       "1e-6 away from tol^2 (other peaks are left out of the trace, their number bounds the returned counts); exact "
+                       "ties are produced only from exact dyadic tables and bit-identical UBIs",
+                       "real OpenMP interleavings are not observable: identical results at every thread count are required",
+                       "inside a caller only the final buffers are observable: the intermediate calls are the model's steps",
+                       "per-grain g-vectors of the assignlabels route: c09_sim.forward (numpy, written from the formulas; agrees with "
+                       "cImageD11.compute_gv to 1e-15, C01's subject); peaks are generated with ImageD11.transform's inverse (inputs only)",
+                       "a stored error of an unassigned peak is only required to be >= tol^2 on the caller routes (1 or 2 today)"]
     if replay:
-        return run_replay(chk, c, indexing, replay)
-
-    # ---- mode A
-    res = common.run_tlc("ScoreAssign", os.path.join(common.SPECS, "ScoreAssign_q.cfg"), workers=16, timeout=1800,
-                         coverage=(tier == "thorough"))
-    chk.add_tlc("ScoreAssign G=3 K=2 E=3 all tables, orders, chunk schedules", res,
-                require_cover=(("Call", "Chunk", "Return") if res.coverage else ()))
-    if res.violated:
-        raise common.MachineryError("ScoreAssign model violates %s" % res.violated)
-    tables = []
-    for line in res.printed:
-        t = json.loads(line)
-        tables.append(t)
-    if len(tables) != 4096 * 6:
-        raise common.MachineryError("expected 24576 finished tables, got %d" % len(tables))
+        return run_replay(chk, mods, replay)
     rng = np.random.default_rng(common.seed())
-    ntie = 0
-    for idx, t in enumerate(tables):
-        err = t["err"]
-        multi = any(sum(1 for g in range(3) if err[g][k] < 3) >= 2 for k in range(2))
-        big = rng.random() < (0.004 if tier == "quick" else 0.03)
-        if tier == "quick" and not big and rng.random() > 0.25:
-            continue
-        reps = 2049 if big else 1          # 2 peaks x 2049 = 4098 > chunk
-        threads = [1, 2, 4, 16] if big else [1, 4]
-        probs = run_table(t, c, indexing, reps, threads)
-        chk.case((json.dumps(err), tuple(t["order"]), reps), nontrivial=multi)
-        chk.traces += 1
-        ntie += 0 if t["noties"] else 1
-        if idx in (100, 9999):
-            chk.sample(t)
-        for p in probs:
-            chk.violation(p, {"table": t, "reps": reps, "threads": threads})
-        if len(chk.violations) > 10:
-            break
-    chk.notes["tables_with_exact_ties"] = ntie
-
-    # ---- mode C
-    ncase = 60 if tier == "quick" else 400
-    recs = []
-    real_n = {}
-    meta = {}
-    tried = 0
-    done = 0
-    while done < ncase and tried < ncase * 5:
-        tried += 1
-        bigcase = (done % 20 == 19)
-        G = int(rng.integers(1, 9)) if not bigcase else int(rng.integers(10, 51 if tier == "thorough" else 21))
-        K = int(rng.integers(10, 200)) if not bigcase else (8200 if tier == "quick" else int(rng.choice([8200, 20000, 100000])))
-        ubis, gv, tol = make_case(rng, G, K, big=bigcase)
-        order = [int(x) for x in rng.permutation(G) + 1]
-        logs = None
-        same = True
-        tlist = [1, 2, 3, 4, 8, 16, 32] if not bigcase else [1, 4, 16]
-        for nt in tlist:
-            ev = record(c, indexing, ubis, gv, tol, order, nt)
-            key = [(g, n, lab.tobytes(), dr.tobytes()) for (g, n, lab, dr) in ev]
-            if logs is None:
-                logs = (ev, key)
-            elif key != logs[1]:
-                same = False
-                chk.violation("score_and_assign log with %d threads differs from the 1-thread log (G=%d K=%d tol=%g)" % (nt, G, K, tol),
-                              {"seed": common.seed(), "case_index": tried, "G": G, "K": K, "tol": tol, "threads": nt})
-        cid = "c%d" % tried
-        rr, allkept = traces_for(cid, ubis, gv, tol, order, logs[0], indexing)
-        if not rr:
-            continue
-        done += 1
-        recs += rr
-        if allkept:
-            real_n[cid] = [n for (_, n, _, _) in logs[0]]
-        meta[cid] = {"G": G, "K": K, "tol": tol, "order": order, "ubis": [u.tolist() for u in ubis],
-                     "gv": gv.tolist() if K <= 300 else "omitted (seeded)", "seed": common.seed(), "case_index": tried}
-        errs = np.array([indexing.calc_drlv2(u, gv) for u in ubis])
-        multi = ((errs < tol * tol).sum(axis=0) >= 2).any()
-        chk.case((cid,), nontrivial=bool(multi))
-        # a second pass in another order: tie-free cases must end with the same labels (order independence)
-        order2 = list(reversed(order))
-        ev2 = record(c, indexing, ubis, gv, tol, order2, 4)
-        rank, keep, E = peak_ranks(ubis, errs, tol * tol)
-        tf = np.array([keep[k] and ((rank[:, k] == rank[:, k].min()).sum() == 1 or rank[:, k].min() >= E) for k in range(K)])
-        if not np.array_equal(ev2[-1][2][tf], logs[0][-1][2][tf]):
-            chk.violation("final labels depend on the order in which grains are presented (no exact ties; G=%d K=%d)" % (G, K), meta[cid])
-    verdicts, sums, rejected = validate(chk, recs, real_n, "modeC")
-    for cid, (r, v) in rejected.items():
-        chk.violation("trace rejected by TraceScoreAssign: %s (block %s, consumed %d events)" % (v["why"], r["id"], v["consumed"]),
-                      dict(meta[cid], rejected_block=r))
-    chk.traces += len(meta)
-    for cid, ns in real_n.items():
-        if cid in rejected:
-            continue
-        if sums.get(cid) != ns:
-            chk.violation("returned counts %s differ from the specification's counts %s" % (ns, sums.get(cid)), meta[cid])
-    if meta:
-        k0 = sorted(meta)[0]
-        chk.sample({"trace_case": {k: meta[k0][k] for k in ("G", "K", "tol", "order")}})
+    names = ("q", "hist") if tier == "quick" else ("q", "hist_t", "dirty_t")
+    out = {}
+    common.scratch()
+    th = [threading.Thread(target=tlc_tables, args=(n, tier, out)) for n in names]
+    for t in th:
+        t.start()
+    try:
+        # the recorded runs are made (and validated, together with the self-test records) while TLC enumerates the tables
+        mc = mode_c(chk, mods, tier, rng, extra=selftest_records(mods))
+        selftest_verdicts(mc.verdicts)
+        observe_getind_default(chk, mods, rng)
+    finally:
+        for t in th:
+            t.join()
+    for n in names:
+        if isinstance(out.get(n), Exception):
+            raise out[n]
+        if len(chk.violations) <= 10:
+            mode_a(chk, mods, n, out[n], tier)
     chk.exhaustive = False
-    chk.notes["block_traces"] = len(recs)
-    selftest(c, indexing, chk=chk)
+    if mc.meta:
+        k0 = sorted(mc.meta)[0]
+        chk.sample({"trace_case": {k: mc.meta[k0][k] for k in ("G", "K", "tol", "order", "route") if k in mc.meta[k0]}})
+    selftest_tables(mods, chk)
     return chk.finish()
 
 
-def run_replay(chk, c, indexing, path):
+def run_replay(chk, mods, path):
     obj = json.load(open(path))
     case = obj["case"]
     chk.exhaustive = False
     if "table" in case:
-        for p in run_table(case["table"], c, indexing, case.get("reps", 1), case.get("threads", [1, 4])):
-            chk.violation(p, case)
+        for what, t in replay_table(chk, mods, case):
+            chk.violation(what, dict(case, table=t))
         chk.case((json.dumps(case["table"]["err"]),))
         chk.traces += 1
         chk.sample(case["table"])
         return chk.finish()
     if "ubis" in case and case.get("gv") != "omitted (seeded)":
+        mc = ModeC(chk, mods)
         ubis = [np.array(u) for u in case["ubis"]]
         gv = np.ascontiguousarray(np.array(case["gv"]))
-        recs = []
-        ns = {}
-        for nt in (1, 2, 4, 16):
-            ev = record(c, indexing, ubis, gv, case["tol"], case["order"], nt)
-            rr, allkept = traces_for("r%d" % nt, ubis, gv, case["tol"], case["order"], ev, indexing)
-            if rr:
-                recs += rr
-                if allkept:
-                    ns["r%d" % nt] = [n for (_, n, _, _) in ev]
-        verdicts, sums, rejected = validate(chk, recs, ns, "replay")
-        for cid, (r, v) in rejected.items():
-            chk.violation("trace rejected by TraceScoreAssign: %s" % v["why"], case)
-        for cid, n in ns.items():
-            chk.traces += 1
-            chk.case((cid,))
-            if cid not in rejected and sums.get(cid) != n:
-                chk.violation("returned counts differ from the specification's", case)
+        mc.raw_case("r", ubis, gv, case["tol"], [int(x) for x in case["order"]], np.random.default_rng(case.get("seed", 0)), False, "thorough")
+        mc.validate("replay")
         chk.sample({"replayed": path})
         return chk.finish()
-    # seeded big case: rerun the whole mode C part with the recorded seed
+    # seeded big / geometry case: rerun the tier with the recorded seed
     os.environ["VERIF_SEED"] = str(case.get("seed", 0))
     return run(chk.tier)
 
 
-def selftest(c=None, indexing=None, chk=None):
-    """a corrupted recorded field must be rejected by the trace specification; a perturbed table expectation by mode A"""
-    rng = np.random.default_rng(5)
-    for _ in range(50):
-        ubis, gv, tol = make_case(rng, 3, 40, simple=True)
-        ev = record(c, indexing, ubis, gv, 0.25, [1, 2, 3], 1)
-        rr, _ = traces_for("s", ubis, gv, 0.25, [1, 2, 3], ev, indexing)
-        if rr and any(l > 0 for l in rr[0]["ev"][-1]["labels"]):
-            break
-    else:
-        raise common.MachineryError("selftest: could not build a trace")
-    good = json.loads(json.dumps(rr[0]))
-    bad = json.loads(json.dumps(rr[0]))
-    bad["id"] = "s/bad"
-    k = next(i for i, l in enumerate(bad["ev"][-1]["labels"]) if l > 0)
-    bad["ev"][-1]["labels"][k] = -1                      # drop one assignment from the last recorded state
-    tmp = common.Check(PROP, "quick")
-    verdicts, sums, rejected = validate(tmp, [good, bad], {}, "selftest")
-    if chk is not None:
-        chk.states += tmp.states
-        chk.transitions += tmp.transitions
-        chk.tlc_runs += tmp.tlc_runs
-    if not verdicts["s/0"]["ok"] or verdicts["s/bad"]["ok"]:
-        raise common.MachineryError("selftest: trace spec verdicts wrong: %s" % verdicts)
-    t = {"err": [[0, 3], [1, 3], [3, 3]], "order": [1, 2, 3], "labels": [1, -1], "drlv2": [0, 3], "rets": [1, 0, 0], "noties": 1}
-    if run_table(t, c, indexing, 1, [1]):
+def selftest_records(mods=None):
+    """a hand-made correct trace over a zero filled buffer (2 grains, 3 peaks; no code under test involved) and two
+    corruptions of it: an assignment dropped from the last state, and a peak indexed by no grain that keeps the zero"""
+    ev = lambda row, n, labels, dr: {"kind": "call", "row": row, "n": n, "obs": 1, "labels": labels, "dr": dr}
+    good = {"id": "selftest/0", "G": 2, "R": 2, "K": 3, "E": 3, "rowlabel": [1, 2], "err": [[0, 3, 1], [1, 3, 0]], "lab0": [1, 1, 1],
+            "ev": [ev(1, 2, [1, -1, 1], [0, 3, 1]), ev(2, 1, [1, -1, 2], [0, 3, 0])], "hist": [1, 1]}
+    bad = json.loads(json.dumps(good))
+    bad["id"] = "selftest/bad"
+    bad["ev"][-1]["labels"][0] = -1
+    kept = json.loads(json.dumps(good))
+    kept["id"] = "selftest/kept"
+    for e in kept["ev"]:
+        e["labels"][1] = 1
+    return [good, bad, kept]
+
+
+def selftest_verdicts(verdicts):
+    if not verdicts["selftest/0"]["ok"] or verdicts["selftest/bad"]["ok"] or verdicts["selftest/kept"]["ok"]:
+        raise common.MachineryError("selftest: trace spec verdicts wrong: %s" % {k: v for k, v in verdicts.items() if k.startswith("selftest")})
+
+
+def selftest_tables(mods, chk=None):
+    """needs a correct kernel: skipped when the run has already recorded violations"""
+    if chk is not None and chk.violations:
+        return
+    c = mods["c"]
+    t = {"err": [[0, 3], [1, 3], [3, 3]], "order": [1, 2, 3], "lab0": [1, 1], "dr0": [3, 3], "labels": [1, -1], "drlv2": [0, 3], "rets": [1, 0, 0],
+         "snaps": [{"labels": [1, -1], "drlv2": [0, 3]}] * 3, "noties": 1, "pass": 1}
+    pk = L.Packed([t], 3)
+    if pk.run_raw(c, (1, 3), TOTAL) or pk.run_nb(c, mods, (1,), 40):
         raise common.MachineryError("selftest: correct table rejected")
-    if not run_table(t, c, indexing, 1, [1], perturb=True):
+    if not pk.run_raw(c, (1,), TOTAL, perturb=True):
         raise common.MachineryError("selftest: perturbed table accepted")
+    t2 = json.loads(json.dumps(t))
+    t2["labels"] = [1, 1]
+    t2["snaps"] = [{"labels": [1, 1], "drlv2": [0, 3]}] * 3          # what a kernel without the release branch would leave
+    if not L.Packed([t2], 3).run_raw(c, (1,), 40):
+        raise common.MachineryError("selftest: table without the release accepted")
+
+
+def selftest(mods=None, chk=None):
+    """a corrupted recorded field must be rejected by the trace specification; a perturbed snapshot by mode A; a label left in
+    place of a release by both"""
+    if mods is None:
+        common.use_shadow(common.build_shadow("normal"))
+        mods = load_mods()
+    tmp = common.Check(PROP, "quick")
+    verdicts, sums, rejected = validate(tmp, selftest_records(mods), "selftest")
+    common.ACTIVE_CHECKS.remove(tmp)
+    selftest_verdicts(verdicts)
+    selftest_tables(mods)
